@@ -8,7 +8,7 @@
    graph id 0 = the default graph.  [iso A B]: B is A with its blank nodes
    renamed injectively.  [wfd D]: the store lists every graph that holds a triple. *)
 From RV Require Import Codec.Model Codec.Hext Routing.Text Routing.TextProofs Routing.HextText Routing.TrixTree.
-From RV Require Import Routing.Model Routing.Proofs Routing.Relabel Routing.Trix Routing.Trig Routing.Patch.
+From RV Require Import Routing.Model Routing.Proofs Routing.Relabel Routing.Trix Routing.Trig Routing.Patch Routing.Bridge.
 
 (* ---- the comparison used by the specification checker ---- *)
 
@@ -253,6 +253,88 @@ Print Assumptions C06_trix_tree_prefix_refuted.
 Theorem C06_trix_tree_spec_model : forall c, xt_wf c = true -> xt_spec c (xt_model c) = true.
 Proof. exact xt_spec_model. Qed.
 Print Assumptions C06_trix_tree_spec_model.
+
+(* ================================================================== the two levels agree
+   [iri_of], [obj_of], [lab_of]: ANY spelling of the routing level's numbers as IRIs / object
+   terms / blank-node labels that rdflib accepts when writing (an odd number gets the same
+   label as a term and as a graph name).  Rows = the statements of the routing-level document
+   with the label of their block. *)
+
+Theorem C06_nquads_levels_agree :
+  forall (iri_of : N -> CM.str) (obj_of : N -> CM.obj) (lab_of : N -> CM.str),
+  (forall x, CM.wf_iri (iri_of x) = true /\ CP.valid_str (iri_of x) = true) ->
+  (forall x, CM.wf_label (lab_of x) = true /\ CP.valid_str (lab_of x) = true) ->
+  (forall x, CM.wf_obj (obj_of x) = true /\ CP.pystr_obj (obj_of x) = true) ->
+  forall D, wfd D -> forall n, (1 <= n)%nat ->
+  let R := rows (ser_nquads D) in
+  let enc := enc_row iri_of obj_of lab_of in
+  (* the encoded rows of the routing-level document are the encoded quads of the dataset *)
+  map enc R = map (enc_quad iri_of obj_of lab_of) (map row_quad R)
+  /\ (forall q, In q (d_quads D) <-> In q (map row_quad R))
+  (* the text the text-level writer produces for them is read back as exactly these rows *)
+  /\ (exists text, TX.nq_doc (map enc R) = Some text /\ TX.nq_parse_doc n text = Some (map enc R))
+  (* and the routing-level reader on these rows gives the original dataset up to blank-node renaming *)
+  /\ iso (d_quads D) (parse_doc true (rowdoc R)).
+Proof. exact nquads_levels_agree. Qed.
+Print Assumptions C06_nquads_levels_agree.
+
+Theorem C06_patch_levels_agree :
+  forall (iri_of : N -> CM.str) (obj_of : N -> CM.obj) (lab_of : N -> CM.str),
+  (forall x, CM.wf_iri (iri_of x) = true /\ CP.valid_str (iri_of x) = true) ->
+  (forall x, CM.wf_label (lab_of x) = true /\ CP.valid_str (lab_of x) = true) ->
+  (forall x, CM.wf_obj (obj_of x) = true /\ CP.pystr_obj (obj_of x) = true) ->
+  (forall x, match iri_of x with c :: _ => N.eqb c 95 = false | [] => True end) ->
+  (forall x, match obj_of x with CM.ONode (CM.Iri (c :: _)) => N.eqb c 95 = false | _ => True end) ->
+  forall S T n, (1 <= n)%nat ->
+  let R := ser_patch_diff S T in
+  let enc := enc_prow iri_of obj_of lab_of in
+  (exists text, TX.patch_doc None None (map enc R) = Some text /\ TX.patch_parse_doc n text = Some (map enc R))
+  /\ qseteq (apply_patch R (d_quads S)) (d_quads T).
+Proof. exact patch_levels_agree. Qed.
+Print Assumptions C06_patch_levels_agree.
+
+Theorem C06_hext_levels_agree :
+  forall (iri_of : N -> CM.str) (obj_of : N -> CM.obj) (lab_of : N -> CM.str),
+  (forall x, CM.wf_iri (iri_of x) = true /\ CP.valid_str (iri_of x) = true) ->
+  (forall x, CM.wf_label (lab_of x) = true /\ CP.valid_str (lab_of x) = true) ->
+  (forall x, CM.wf_obj (obj_of x) = true /\ CP.pystr_obj (obj_of x) = true) ->
+  (forall x, match iri_of x with c :: _ => N.eqb c 95 = false | [] => True end) ->
+  (forall x, CH.has_bn_marker (lab_of x) = false) ->
+  (forall x, match obj_of x with CM.ONode n => CH.hext_node_ok n = true | _ => True end) ->
+  forall D, wfd D ->
+  let R := rows (ser_hext D) in
+  let R0 := rows (blocks_of lab_std D (ds_contexts D)) in
+  let enc := enc_row iri_of obj_of lab_of in
+  (forall x, In x (HT.hext_doc (map enc R0)) <-> In x (map HT.hext_row_q (map enc R)))
+  /\ (forall q, In q (d_quads D) <-> In q (map row_quad R))
+  /\ HT.hext_read (map HT.hext_row_q (map enc R)) = Some (map HT.hext_norm_q (map enc R))
+  /\ qseteq (parse_doc false (ser_hext D)) (d_quads D).
+Proof. exact hext_levels_agree. Qed.
+Print Assumptions C06_hext_levels_agree.
+
+(* TriX: the tree level and the routing level describe the same document; F17 appears at both
+   (anonymous segment / GAnon block) and is the hypothesis [names_apart] of the routing theorem *)
+Theorem C06_trix_levels_agree :
+  forall (iri_of : N -> CM.str) (obj_of : N -> CM.obj) (lab_of : N -> CM.str),
+  (forall x, CM.wf_iri (iri_of x) = true /\ CP.valid_str (iri_of x) = true) ->
+  (forall x, CM.wf_label (lab_of x) = true /\ CP.valid_str (lab_of x) = true) ->
+  (forall x, CM.wf_obj (obj_of x) = true /\ CP.pystr_obj (obj_of x) = true) ->
+  forall D, wfd D -> names_apart D ->
+  XT.wr_doc (map (enc_graph iri_of obj_of lab_of D) (ds_contexts D)) = map (tree_block iri_of obj_of lab_of) (ser_trix D)
+  /\ XT.rd_doc (map (tree_block iri_of obj_of lab_of) (ser_trix D))
+      = Some (flat_map (seg_block iri_of obj_of lab_of) (ser_trix D))
+  /\ iso (d_quads D) (parse_doc true (ser_trix D)).
+Proof. exact trix_levels_agree. Qed.
+Print Assumptions C06_trix_levels_agree.
+
+(* the hypotheses on the spelling are satisfiable, e.g. IRIs u:xx...x and labels bxx...x *)
+Example C06_levels_spelling_exists :
+  exists (iri_of : N -> CM.str) (obj_of : N -> CM.obj) (lab_of : N -> CM.str),
+    (forall x, CM.wf_iri (iri_of x) = true /\ CP.valid_str (iri_of x) = true)
+    /\ (forall x, CM.wf_label (lab_of x) = true /\ CP.valid_str (lab_of x) = true)
+    /\ (forall x, CM.wf_obj (obj_of x) = true /\ CP.pystr_obj (obj_of x) = true)
+    /\ (forall x y, iri_of x = iri_of y -> x = y) /\ (forall x y, lab_of x = lab_of y -> x = y).
+Proof. exact spelling_exists. Qed.
 
 (* non-vacuity: two named graphs (one IRI-named, one blank-node-named), an empty
    named graph, a triple present in three graphs, a blank node shared by the
